@@ -198,6 +198,14 @@ def audit(rep, rid, fl, roots, section, li=None, stop=None, floor_sites=0, descr
         by_reason.setdefault((rp, why), []).append(where)
     for (rp, why), ws in sorted(by_reason.items()):
         rep.ok(rid, "%s#auto" % rp + ("#args" if "arity" in why else "#const-index"), ws[0], why="%d sites: %s" % (len(ws), why), sample={"sites": len(ws)})
+    # section totals per kind: extracting a helper or inlining one moves sites between functions without adding a way to panic
+    tot_now, tot_rev = {}, {}
+    for rp, kinds in per.items():
+        for kind, locs in kinds.items():
+            tot_now[kind] = tot_now.get(kind, 0) + len(locs)
+    for rp, kinds in table.items():
+        for kind, c in kinds.items():
+            tot_rev[kind] = tot_rev.get(kind, 0) + c
     for rp in sorted(per):
         for kind, locs in sorted(per[rp].items()):
             n = len(locs)
@@ -208,12 +216,14 @@ def audit(rep, rid, fl, roots, section, li=None, stop=None, floor_sites=0, descr
                 rep.ok(rid, key, locs[0], why="%d site(s), %d reviewed: %s" % (n, reviewed, why_ok), sample={"sites": sorted(set(locs))[:6]})
             elif n <= reviewed:
                 rep.bad(rid, key + "#no-reason", locs[0], "review table lists %d site(s) of kind %s in %s but carries no reason for them" % (reviewed, kind, rp))
+            elif tot_now.get(kind, 0) <= tot_rev.get(kind, 0):
+                rep.ok(rid, key, locs[0], why="%d site(s) here, %d reviewed here, but the audited section as a whole has %d of this kind against %d reviewed: sites moved between functions (helper extracted / inlined), no new way to panic" % (n, reviewed, tot_now[kind], tot_rev[kind]), sample={"sites": sorted(set(locs))[:6], "moved": True})
             else:
                 rep.bad(
                     rid,
                     key,
                     sorted(set(locs))[0],
-                    "%s (reachable via %s) has %d panic site(s) of kind %s, %d reviewed: an unreviewed way to crash on the audited path — lines %s" % (rp, " -> ".join(_chain(fl, rp)), n, kind, reviewed, ", ".join(sorted(set(locs))[:8])),
+                    "%s (reachable via %s) has %d panic site(s) of kind %s, %d reviewed (section total %d, reviewed %d): an unreviewed way to crash on the audited path — lines %s" % (rp, " -> ".join(_chain(fl, rp)), n, kind, reviewed, tot_now.get(kind, 0), tot_rev.get(kind, 0), ", ".join(sorted(set(locs))[:8])),
                     sample={"sites": sorted(set(locs))[:10], "reviewed": reviewed},
                 )
     for rp, kinds in sorted(table.items()):
